@@ -14,6 +14,9 @@
 
 #include "bloch/runtime/runtime_evaluator.hpp"
 
+#ifdef BLOCH_VERIF
+#include <cstdlib>
+#endif
 #include <algorithm>
 #include <chrono>
 #include <cmath>
@@ -1315,6 +1318,10 @@ namespace bloch::runtime {
     void RuntimeEvaluator::ensureGcThread() {
         if (m_gcThread.joinable())
             return;
+#ifdef BLOCH_VERIF
+        if (std::getenv("BLOCH_VERIF_GC"))
+            return;  // H4: collections are driven by the schedule, not by the timer
+#endif
         m_stopGc = false;
         m_gcRequested = false;
         m_gcThreadStarted = true;
@@ -1774,6 +1781,21 @@ namespace bloch::runtime {
     }
 
     void RuntimeEvaluator::exec(Statement* s) {
+#ifdef BLOCH_VERIF
+        // Verification hook H4: a deterministic collection schedule. BLOCH_VERIF_GC=all collects at
+        // every statement boundary, =none never during the run, =mask:<bits> at the boundaries whose
+        // (cyclic) bit is 1. The wall-clock timer is not started when the variable is set.
+        if (const char* sched = std::getenv("BLOCH_VERIF_GC")) {
+            std::string sc(sched);
+            bool fire = false;
+            if (sc == "all")
+                fire = true;
+            else if (sc.rfind("mask:", 0) == 0 && sc.size() > 5)
+                fire = sc[5 + (m_verifGcTick % (sc.size() - 5))] == '1';
+            ++m_verifGcTick;
+            m_gcRequested = fire;
+        }
+#endif
         if (m_gcRequested.load())
             runCycleCollector();
         if (!s)
